@@ -139,7 +139,6 @@ func (c *wsConn) dispose() {
 	c.serv.mu.Lock()
 	defer c.serv.mu.Unlock()
 
-	c.serv.wg.Done()
 	delete(c.serv.conns, c.cid)
 }
 
@@ -708,6 +707,9 @@ func (c *wsConn) outputWorker() {
 	}
 
 	c.queue = nil
+	// Callbacks queued behind the dispose have now been called. Only then
+	// is the connection done; they may still use the cache.
+	c.serv.wg.Done()
 }
 
 func (c *wsConn) subscribeConn() {
